@@ -245,6 +245,16 @@ forbid(principal == User::"a", action, resource)
 when { if context has who then context.who == principal else {a: [1, "s"], "b c": decimal("1.5")}.a.isEmpty() };
 "#;
 
+/// the policies of the policy-set seeds (JSON and protobuf); the template and a link are added
+pub const SMALL_POLICIES_TEXT: &str = r#"@id("s0") permit(principal in Group::"g", action, resource) when { principal.age > 1 && resource.labels.contains("x") };
+forbid(principal, action == Action::"edit", resource is Doc) unless { context has n && -context.n < 1 || ip("::1").isLoopback() };"#;
+
+pub const SMALL_ENTITIES_JSON: &str = r#"[
+ {"uid":{"type":"User","id":"a"},"attrs":{"age":21,"mgr":{"__entity":{"type":"User","id":"b"}}},"parents":[{"type":"Group","id":"g"}],"tags":{"t1":"x"}},
+ {"uid":{"type":"Group","id":"g"},"attrs":{},"parents":[]},
+ {"uid":{"type":"Doc","id":"d"},"attrs":{"owner":{"__entity":{"type":"User","id":"a"}},"labels":["x"],"ip":{"__extn":{"fn":"ip","arg":"10.0.0.1"}}},"parents":[{"type":"Group","id":"g"}],"tags":{"n":1}}
+]"#;
+
 pub const TEMPLATE_TEXT: &str = r#"@a("b") permit(principal == ?principal, action == Action::"view", resource in ?resource) when { resource.owner == principal && principal.hasTag("t1") };"#;
 
 pub const FIXED_PSET_TEXT: &str = r#"@id("p0") permit(principal in Group::"g", action == Action::"view", resource) when { principal.age >= 18 && resource.owner == principal && context.n > 0 };
@@ -385,7 +395,7 @@ pub fn build_seeds() -> Result<Vec<Seed>, String> {
     let est_policy = p0.to_json().map_err(|x| e("est", x.to_string()))?;
     let tmpl = Template::parse(Some(PolicyId::new("t0")), TEMPLATE_TEXT).map_err(|x| e("template", x.to_string()))?;
     let est_template = tmpl.to_json().map_err(|x| e("est template", x.to_string()))?;
-    let mut full = PolicySet::from_str(POLICIES_TEXT).map_err(|x| e("policies", x.to_string()))?;
+    let mut full = PolicySet::from_str(SMALL_POLICIES_TEXT).map_err(|x| e("policies", x.to_string()))?;
     full.add_template(tmpl.clone()).map_err(|x| e("add_template", x.to_string()))?;
     let mut vals = HashMap::new();
     vals.insert(SlotId::principal(), fx.ua.clone());
@@ -449,7 +459,8 @@ pub fn build_seeds() -> Result<Vec<Seed>, String> {
     pb("proto-template", tmpl.encode())?;
     pb("proto-expression", expr.encode())?;
     pb("proto-schema", seed_schema.encode())?;
-    pb("proto-entities", fx.entities.encode())?;
+    let small_ents = Entities::from_json_str(SMALL_ENTITIES_JSON, None).map_err(|x| e("small entities", x.to_string()))?;
+    pb("proto-entities", small_ents.encode())?;
     pb("proto-entity", ent.encode())?;
     pb("proto-request", fx.reqs[0].encode())?;
     pb("proto-entity-type-name", EntityTypeName::from_str("NS::Thing").map_err(|x| x.to_string())?.encode())?;
@@ -522,13 +533,8 @@ fn ep_policy_text(run: &mut Run, fx: &Fix, s: &str, full: bool) {
 
 fn format_text(run: &mut Run, fx: &Fix, s: &str) {
     match run.call("policies_str_to_pretty", || policies_str_to_pretty(s, &fx.cfg)) {
-        Some(Ok(out)) => {
+        Some(Ok(_out)) => {
             run.ok("policies_str_to_pretty");
-            // formatter output is fed back (returns / terminates only)
-            match run.call("policies_str_to_pretty(formatted)", || policies_str_to_pretty(&out, &fx.cfg)) {
-                Some(Err(e)) => render_report!(run, "policies_str_to_pretty(formatted)", e),
-                _ => {}
-            }
             match run.call("policies_str_to_pretty(narrow)", || policies_str_to_pretty(s, &fx.cfg_narrow)) {
                 Some(Err(e)) => render_report!(run, "policies_str_to_pretty(narrow)", e),
                 _ => {}
@@ -669,7 +675,7 @@ pub fn pipe_pset(run: &mut Run, fx: &Fix, ps: &PolicySet, deep: bool) {
     }
     down!(run, "compute_entity_manifest", compute_entity_manifest(&fx.validator, ps), m => { run.call("EntityManifest => Debug", || format!("{m:?}").len()); });
     // formatting of the printed form
-    if let Some(t) = &text {
+    if let (Some(t), true) = (&text, deep) {
         match run.call("policies_str_to_pretty(PolicySet::to_string)", || policies_str_to_pretty(t, &fx.cfg)) {
             Some(Err(e)) => render_report!(run, "policies_str_to_pretty(PolicySet::to_string)", e),
             _ => {}
